@@ -1298,16 +1298,24 @@ def run(prop, tier):
             # second run; the minimal interacting rule set stays in the detail
             det = fl["detail"] if isinstance(fl["detail"], dict) else {}
             ch = [c for c in det.get("rules_changing_in_second_run") or [] if not c.startswith("<")]
-            cand = ch[:1] or sorted(det.get("minimal_rules") or [])[:1] or [x for x in site.split("+")][:1]
+            # the culprit: a rule of the MINIMAL non-converging rule set that still changes the file in the second
+            # run (on the cut input if the minimisation got that far) - rules that merely follow because an
+            # alignment moved (type_100 after constant_014 ...) are not what identifies the finding
+            mr = det.get("minimal_rules") if isinstance(det.get("minimal_rules"), list) else []
+            cut = (det.get("minimised") or {}).get("rules_changing_in_second_run_on_cut_input") or []
+            culprit = [c for c in cut if c in mr] or [c for c in ch if c in mr]
+            cand = culprit[:1] or ch[:1] or sorted(mr)[:1] or [x for x in site.split("+")][:1]
             try:
                 site = owner_of(cand[0]) if cand and not cand[0].startswith("rule_list") else site
             except Exception:  # noqa: BLE001
                 pass
             if isinstance(fl["detail"], dict):
                 fl["detail"]["rule_set_site"] = fl["site"]
-            # … and, inside that base class, by the rule itself (a listed base class does not hide another of its rules)
-            if cand and not cand[0].startswith("rule_list") and ":" not in fl["kind"]:
-                fl["kind"] = "%s:%s" % (fl["kind"], cand[0])
+            # the rule itself stays in the detail only: with the rule id in the identity the set of findings of the
+            # pinned tree has a long seed-dependent tail (whitespace_007, external_signal_name_103, ... are all the same
+            # base-class behaviour), and an alarm on the unchanged tree is worse than a masked second rule (DESIGN 1.2)
+            if isinstance(fl["detail"], dict):
+                fl["detail"]["culprit_rule"] = cand[0] if cand else None
         res.fail(site, fl["kind"], fl["detail"], fl["input"])
     nontrivial = sum(1 for r in results if r.get("changed"))
     samples = [{"job": os.path.relpath(fl["input"].get("path", "?"), common.REPO), "variant": fl["input"].get("variant"), "config": fl["input"].get("config"), "site": fl["site"], "kind": fl["kind"]} for fl in list(distinct.values())[:6]]
